@@ -39,7 +39,7 @@ CHECKS.update({
          "DESIGN.md §4 C02"),
  "C09": ("E1-choice-tree",
          "bounded-exhaustive enumeration of model programs x layouts; every AST span is checked against token positions recorded by the printer (relations from the statement)",
-         "For every program and layout of the C02 families every Symbol's span is one obligation, checked against the positions the printer recorded for the tokens of that element (start at first token of the declaration proper, name included, end on a token of the element, exact spans for identifiers/types/attributes, doc parts within the comment). Doc comments with non-ASCII text before their links, tags and line ends are a family of their own (every doc part must lie within the characters of its lines). Diagnostic spans and snippet rendering are checked on the violation catalogue.",
+         "For every program and layout of the C02 families every Symbol's span is one obligation, checked against the positions the printer recorded for the tokens of that element (start at first token of the declaration proper, name included, end on a token of the element, exact spans for identifiers/types/attributes, doc parts within the comment). Doc comments with non-ASCII text before their links, tags and line ends are a family of their own (every doc part must lie within the characters of its lines). Diagnostic spans and snippet rendering (location line, line numbers, the source text shown, underline columns - for the diagnostic and for every note, also notes that point into another file) are checked on the violation catalogue and on a cross-file catalogue.",
          "trusted: the printer's position recording (rows advance at LF, columns count characters); relations are deliberately weaker than slicec's current conventions where the statement leaves room",
          "DESIGN.md §4 C09"),
  "C20": ("E1-choice-tree",
@@ -68,7 +68,7 @@ CHECKS.update({
 CHECKS.update({
  "C04": ("E1-choice-tree",
          "per-rule exhaustive small-scope families and all ordered pairs of (well-formed + single-rule-violating) constructs compiled by the real compiler against an independent reference validator over the model",
-         "For every rule of the statement a complete small-scope family is enumerated (tag/optional assignments over <= 3 members in 6 containers, enumerator values at every primitive's boundaries, every key type in 6 dictionary positions, every stream placement, every duplicate-name placement, every known attribute x target x argument list x repetition, malformed literals) plus all ordered pairs drawn from 40 well-formed and 30 violating constructs; the reference checker decides well-formedness and the set of codes belonging to violated rules; accepted iff well-formed, and every reported error code must belong to a violated rule.",
+         "For every rule of the statement a complete small-scope family is enumerated (tag/optional assignments over <= 3 members in 6 containers, enumerator values at every primitive's boundaries, every key type in 6 dictionary positions, every stream placement, every duplicate-name placement, every known attribute x target x argument list x repetition, malformed literals, every inheritance DAG over four interfaces like-named across two modules x every operation assignment) plus all ordered pairs drawn from 40 well-formed and 30 violating constructs; the reference checker decides well-formedness and the set of codes belonging to violated rules; accepted iff well-formed, and every reported error code must belong to a violated rule.",
          "trusted: the rule catalogue in mc/src/model/rules.rs (written from the statement); phase gating means equality of the reported and violated sets is not demanded",
          "DESIGN.md §4 C04"),
  "C07": ("E3-process",
@@ -91,7 +91,7 @@ CHECKS.update({
          "DESIGN.md §4 C16"),
  "C17": ("E1-choice-tree",
          "exhaustive enumeration of argument lists over real directory trees (files, links, cycles, unreadable entries) through compile_from_options against a reference file-set resolver",
-         "2^6 real directory trees (optional empty dir, file link, directory link, symlink cycle, dangling link, invalid UTF-8 file) x every sources/references argument list up to the bound over 12-19 path spellings per tree (incl. extensions in another letter case): compiled set, order, source priority, one DuplicateFile warning per repeat within a list and none across lists, I/O errors for missing / non-.slice / directory-as-source / unreadable and nothing parsed then.",
+         "2^6 real directory trees (optional empty dir, file link, directory link, symlink cycle, dangling link, invalid UTF-8 file) x every sources/references argument list up to the bound over 12-19 path spellings per tree (incl. extensions in another letter case), plus lists of 4-5 entries over 4-5 spellings: compiled set, order, source priority, one DuplicateFile warning per repeat within a list and none across lists, I/O errors for missing / non-.slice / directory-as-source / unreadable and nothing parsed then.",
          "trusted: the reference resolver in mc/src/props/c17.rs (identity = canonical path computed on the model tree); permission faults cannot be produced as root (invalid UTF-8 stands in); under a symlink cycle only lower bounds on warnings are checked; read_dir order is treated as unordered",
          "DESIGN.md §4 C17"),
 })
@@ -112,7 +112,7 @@ CHECKS.update({
 CHECKS.update({
  "C08": ("E3-process",
          "exhaustive enumeration of model programs x source/reference splits x argument lists through the real slicec binary with a capturing generator; independent schema decoder; expected request computed from the model",
-         "Every construct alone in 4 module scopes x 4 splits x 4 argument lists, all ordered construct pairs, all 40 constructs packed into one file, three-file programs in every source/reference assignment and order, every @param/@returns documentation shape and every value extreme: every run has three generators with different argument lists: the bytes received by each must end with its own arguments and the request before them must be byte-identical for all, the rest must decode completely according to slice/Compiler with an independently written decoder, and the decoded request (numeric type ids inlined, constrained to earlier anonymous symbols of the same file) must equal the request computed from the model; named ids must exist in transmitted files.",
+         "Every construct alone in 4 module scopes x 4 splits x 4 argument lists, all ordered construct pairs, all 40 constructs packed into one file, three-file programs in every source/reference assignment and order, every @param/@returns documentation shape, every value extreme, and every tag / enumerator value / identifier, string, comment and member-list length one below, at and one above every size-class boundary of both variable-length integer formats: every run has three generators with different argument lists: the bytes received by each must end with its own arguments and the request before them must be byte-identical for all, the rest must decode completely according to slice/Compiler with an independently written decoder, and the decoded request (numeric type ids inlined, constrained to earlier anonymous symbols of the same file) must equal the request computed from the model; named ids must exist in transmitted files.",
          "trusted: the decoder and the expected-request builder in mc/src/props/c08.rs; variants are decoded as varint discriminant + payload + tag end marker, as the hand-written encoder and DESIGN §8 establish; message components are compared after concatenation",
          "DESIGN.md §4 C08"),
 })
@@ -128,16 +128,16 @@ CHECKS.update({
 CHECKS.update({
  "C15": ("E1-choice-tree",
          "exhaustive subsets x permutations of a file pool compiled in-process (each twice, fresh hash seeds) and exhaustive source/reference assignments x orders through the real binary under controlled hash seeds; differential oracle",
-         "Every subset of 2..4 (thorough: 5) of 21 inter-dependent files (cross-file references, alias chains, inheritance, deprecated uses, name collisions between definitions, modules and members, preprocessor symbols) in every permutation: accepted-or-rejected, every file's AST and the multiset of warnings must not depend on the order, and compiling twice gives identical results; 26 diagnostic-dense programs alone and in all ordered pairs are compiled 8 (thorough: 64) times with fresh hash seeds and must report the same diagnostics in the same order; at process level 3- and 4-file programs (clean, with warnings, rejected; thorough: every 3-subset of the pool) in every source/reference assignment and order, each under several HashMap seeds injected through an LD_PRELOAD getrandom shim: diagnostics and generator requests byte-identical across seeds and repetitions, request content per file identical across assignments.",
+         "Every subset of 2..4 (thorough: 5) of 31 inter-dependent files (cross-file references, alias chains, inheritance, deprecated uses, name collisions between definitions, modules and members, preprocessor symbols) in every permutation: accepted-or-rejected, every file's AST and the multiset of warnings must not depend on the order, and compiling twice gives identical results; 26 diagnostic-dense programs alone and in all ordered pairs are compiled 8 (thorough: 64) times with fresh hash seeds and must report the same diagnostics in the same order; at process level 3- and 4-file programs (clean, with warnings, rejected; thorough: every 3-subset of the pool) in every source/reference assignment and order, each under several HashMap seeds injected through an LD_PRELOAD getrandom shim: diagnostics and generator requests byte-identical across seeds and repetitions, request content per file identical across assignments.",
          "trusted: shim/hashseed.c controls std's hash seed (verified: same seed same order); the 2^128 seed space is sampled (4 / 32 seeds), everything else is exhaustive within the pool",
          "DESIGN.md §4 C15"),
 })
 
 CHECKS.update({
  "C01": ("E1-choice-tree",
-         "bounded-exhaustive enumeration of token soups, one-deviation mutations, type form x position products, comment/directive soups and size-parametrised cost families in crash-isolated worker processes, plus the option product of the real binary",
-         "Every token sequence up to the bound over a 67-token alphabet in 10 contexts, every single-token and single-character deviation of 8 base programs, 175 type forms in 14 positions, comment and directive soups, 12 cost-growth families doubling up to 8 KiB (each instance alone under the statement's time bound) are compiled, level-updated and emitted in both formats inside worker processes whose death (stack overflow, abort, signal) or silence is observed by the parent; the binary is run over the option product and over directory trees with symbolic-link cycles and unresolvable links; C05's containment / alias / inheritance graph families run a second time for the verdict only. Only 'terminates with a verdict within the bound' is judged.",
-         "trusted: the worker isolation in mc/src/engine.rs; inputs larger than the bounds are not covered; only inputs <= 8 KiB are timed against the 20 s clause; Unicode is represented by one code point per UTF-8 length class and per hazard",
+         "bounded-exhaustive enumeration of token soups, one-deviation mutations, type form x position products, comment/directive soups and size-parametrised cost families in crash-isolated worker processes (the mutation families a second time in AddressSanitizer-instrumented workers), plus the option product of the real binary",
+         "Every token sequence up to the bound over a 67-token alphabet in 10 contexts, every single-token and single-character deviation of 9 base programs (one of them with a parse-time lint on every documentable element), 175 type forms in 14 positions, comment and directive soups, 16 cost-growth families doubling up to 8 KiB incl. towers of aliases of two-armed anonymous types (each instance alone under the statement's time bound) are compiled, level-updated and emitted in both formats inside worker processes whose death (stack overflow, abort, signal) or silence is observed by the parent; the binary is run over the option product, over directory trees with symbolic-link cycles and unresolvable links, over the alias towers with a generator, and over the rule-boundary cases of C04 and the comment cases of C16 with a generator (the request builder only exists there); C05's containment / alias / inheritance graph families run a second time for the verdict only; the mutation families run once more in workers built with AddressSanitizer, so that a read of freed memory ends the case instead of depending on what the allocator left there. Only 'terminates with a verdict within the bound' is judged.",
+         "trusted: the worker isolation in mc/src/engine.rs; AddressSanitizer (nightly toolchain) as the memory-access oracle of the sanitized families - if it cannot be built the layer is reported as skipped; inputs larger than the bounds are not covered; only inputs <= 8 KiB are timed against the 20 s clause; Unicode is represented by one code point per UTF-8 length class and per hazard",
          "DESIGN.md §4 C01"),
 })
 
